@@ -124,7 +124,6 @@ func vNewStream(fc *vfakeConsumer, fm *vfakeMetadata) *stream {
 		metric:                     &Metric{},
 		offsets:                    wrapper.CreateConcurrentSwissMap[uint16, *models.Offset](1024),
 		dirtyOffsets:               wrapper.CreateConcurrentSwissMap[uint16, bool](1024),
-		dirtySeqNos:                wrapper.CreateConcurrentSwissMap[uint16, uint64](1024),
 		tracerComponent:            tracing.NewTracerComponent(),
 		finishStreamWithCloseCh:    make(chan struct{}, 1),
 		finishStreamWithEndEventCh: make(chan struct{}, 1),
@@ -214,8 +213,4 @@ func vAssigned() []uint16 {
 		ids = append(ids, uint16(vb))
 	}
 	return ids
-}
-
-func newDirtySeqMap() *wrapper.ConcurrentSwissMap[uint16, uint64] {
-	return wrapper.CreateConcurrentSwissMap[uint16, uint64](1024)
 }
